@@ -156,3 +156,31 @@ func truncStr(s string, n int) string {
 	}
 	return s
 }
+
+func init() { register("resolve", opResolve) }
+
+// resolve: parse, run the real name resolver through the real traverser, return the map with nodes identified by
+// kind and start offset.
+func opResolve(t Task) Result {
+	src := s2b(tStr(t, "src"))
+	p := doParse(src, parseVersion(t), true)
+	res := Result{"nerr": len(p.errs)}
+	if len(p.errs) > 0 {
+		res["errs"] = []interface{}{map[string]interface{}{"msg": p.errs[0].Msg, "p": posJSON(p.errs[0].Pos)}}
+	}
+	if isNilVertex(p.root) {
+		return res
+	}
+	r := nsresolver.NewNamespaceResolver()
+	traverser.NewTraverser(r).Traverse(p.root)
+	var out []interface{}
+	for n, name := range r.ResolvedNames {
+		s, e := -1, -1
+		if pos := n.GetPosition(); pos != nil {
+			s, e = pos.StartPos, pos.EndPos
+		}
+		out = append(out, map[string]interface{}{"kind": kindName(n), "s": s, "e": e, "name": name})
+	}
+	res["map"] = out
+	return res
+}
